@@ -140,8 +140,10 @@ func (c *CRLRevocationChecker) addCrlFilesFromConfig(chains *core.CertificateCha
 
 func (c *CRLRevocationChecker) initCRLUpdateTicker() {
 	parsed := c.crlConfig.UpdateIntervalParsed
-	c.crlUpdateTicker = time.NewTicker(parsed)
-	c.crlUpdateStop = make(chan struct{})
+	ticker := time.NewTicker(parsed)
+	stop := make(chan struct{})
+	c.crlUpdateTicker = ticker
+	c.crlUpdateStop = stop
 	go func() {
 		defer func() {
 			if err := recover(); err != nil {
@@ -151,9 +153,9 @@ func (c *CRLRevocationChecker) initCRLUpdateTicker() {
 		c.updateCRLs(false)
 		for {
 			select {
-			case <-c.crlUpdateStop:
+			case <-stop:
 				return
-			case <-c.crlUpdateTicker.C:
+			case <-ticker.C:
 				go c.updateCRLs(false)
 			}
 		}
